@@ -765,6 +765,7 @@ type netSpec struct {
 	cert   string // "" = none; name or IP the server certificate is issued for
 	direct bool   // tcp based transport without the proxy: loopback TCP listeners see the connection
 	boot   *bootSpec
+	trunc  bool // plain udp upstream: every UDP reply is truncated, TCP listeners see the retry
 }
 
 // bootSpec: Opt.Bootstrap points at a DNS server of the harness that answers
@@ -901,6 +902,7 @@ func runNetOnce(id string, ns netSpec) (netResult, bool) {
 	u := ns.u
 	mode, socks, defPort := schemeMode(u.scheme)
 	rec := newRec()
+	rec2 := newRec() // TCP retries of the udp upstream
 	opt := upstream.Opt{DialAddr: u.dialStr()}
 	var closers []func()
 	defer func() {
@@ -1037,6 +1039,30 @@ func runNetOnce(id string, ns netSpec) (netResult, bool) {
 				}
 				closers = append(closers, func() { pc.Close() })
 				lit := hx.Tuple(hx.App("DIp", ipBytes(a.Addr())), hx.Ni(p))
+				if ns.trunc {
+					// the TCP side of the same server: sees the retry of a truncated reply
+					ln, err := net.ListenTCP("tcp", net.TCPAddrFromAddrPort(a))
+					if err != nil {
+						if p == want {
+							return netResult{}, false
+						}
+					} else {
+						closers = append(closers, func() { ln.Close() })
+						wg.Add(1)
+						go func() {
+							defer wg.Done()
+							for {
+								c, err := ln.Accept()
+								if err != nil {
+									return
+								}
+								rec2.add(lit)
+								wg.Add(1)
+								go func() { defer wg.Done(); serveUpstream(c, "tcp", nil, nil) }()
+							}
+						}()
+					}
+				}
 				wg.Add(1)
 				go func() {
 					defer wg.Done()
@@ -1049,6 +1075,9 @@ func runNetOnce(id string, ns netSpec) (netResult, bool) {
 						rec.add(lit)
 						if mode == "udp" && n >= 12 {
 							buf[2] |= 0x80
+							if ns.trunc {
+								buf[2] |= 0x02 // TC
+							}
 							pc.WriteToUDP(buf[:n], from)
 						}
 					}
@@ -1106,6 +1135,15 @@ func runNetOnce(id string, ns netSpec) (netResult, bool) {
 		(strings.Contains(exchErr, "deadline exceeded") || strings.Contains(exchErr, "timeout"))
 	if mode == "quic" && created && rec.n == 0 {
 		starved = true // no datagram at all within the generous limit
+	}
+	if ns.trunc {
+		o := "None"
+		if created {
+			o = hx.Some(hx.Tuple(hx.List(rec.dests()), hx.List(rec2.dests()), hx.Bool(exchOK)))
+		}
+		return netResult{kind: "udp-truncated", coq: hx.App("CTrunc", u.coq(), o),
+			desc: map[string]any{"addr": u.addrStr(), "dial_addr": u.dialStr(), "created": created, "udp_destinations": rec.dests(),
+				"tcp_destinations": rec2.dests(), "exchange_ok": exchOK, "exchange_err": exchErr}, starved: starved}, true
 	}
 	if bsrv != nil {
 		if created {
@@ -1226,6 +1264,26 @@ func netCatalogue(p1, p2 string) []netSpec {
 		{u: mean("udp", namep("dns.example", p1), "", nil), boot: &bootSpec{ans: "127.0.0.2"}},
 		{u: mean("tcp", namep("127.0.0.2", p1), "", nil), boot: &bootSpec{ans: "127.0.0.3"}},
 		{u: mean("tls+pipeline", namep("localhost", p1), "", pe(v6p("::1", p2))), cert: "localhost", boot: &bootSpec{ans: "127.0.0.2"}},
+		// the second dial site of the plain udp upstream: TCP after a truncated reply.
+		// url with/without port x dial_addr with/without port x no scheme / udp://
+		{u: mean("udp", namep("127.0.0.2", p1), "", nil), trunc: true},
+		{u: mean("udp", name("127.0.0.3"), "", nil), trunc: true},
+		{u: mean("", namep("127.0.0.2", p1), "", nil), trunc: true},
+		{u: mean("", name("127.0.0.3"), "", nil), trunc: true},
+		{u: mean("", v6("::1", false), "", nil), trunc: true},
+		{u: mean("udp", v6("::1", true), "", nil), trunc: true},
+		{u: mean("udp", v6p("::1", p1), "", nil), trunc: true},
+		{u: mean("udp", namep("127.0.0.2", p1), "", pe(namep("127.0.0.3", p2))), trunc: true},
+		{u: mean("udp", namep("127.0.0.2", p1), "", pe(name("127.0.0.3"))), trunc: true},
+		{u: mean("udp", name("127.0.0.2"), "", pe(namep("127.0.0.3", p2))), trunc: true},
+		{u: mean("udp", name("127.0.0.2"), "", pe(name("127.0.0.3"))), trunc: true},
+		{u: mean("", namep("127.0.0.2", p1), "", pe(namep("127.0.0.3", p2))), trunc: true},
+		{u: mean("", name("127.0.0.2"), "", pe(v6p("::1", p2))), trunc: true},
+		{u: mean("", namep("127.0.0.2", p1), "", pe(v6("::1", false))), trunc: true},
+		{u: mean("udp", namep("127.0.0.2", p1), "", pe(namep("127.0.0.2", p2))), trunc: true},
+		{u: mean("udp", namep("127.0.0.2", p1), "", pe(namep("127.0.0.3", p1))), trunc: true},
+		{u: mean("udp", v6p("::1", p1), "", pe(name("127.0.0.1"))), trunc: true},
+		{u: mean("udp", namep("dns.example", p1), "", pe(namep("127.0.0.3", p2))), trunc: true},
 	}
 }
 
@@ -1347,6 +1405,12 @@ func genNet(r *hx.RNG) netSpec {
 			u.e = ep{host: hn(), port: u.e.port}
 		}
 		ns.u = u
+	}
+	if mode == "udp" && r.Bool() {
+		ns.trunc = true
+		if r.Chance(1, 3) {
+			ns.u.scheme = ""
+		}
 	}
 	if s == "tls" || s == "tls+pipeline" || s == "https" {
 		ns.cert = u.e.host
